@@ -75,6 +75,21 @@ func ParseQuotedStringE(s string) (string, error) {
 	return b.String(), nil
 }
 
+// quoteString renders s as an HTTP quoted-string (RFC 9110 §5.6.4), so that
+// ParseQuotedString(quoteString(s)) == s.
+func quoteString(s string) string {
+	var b strings.Builder
+	b.WriteByte('"')
+	for i := 0; i < len(s); i++ {
+		if !validQDTextByte(s[i]) {
+			b.WriteByte('\\')
+		}
+		b.WriteByte(s[i])
+	}
+	b.WriteByte('"')
+	return b.String()
+}
+
 // validQDTextByte reports whether b is allowed as qdtext, per RFC 9110 §5.6.4.
 func validQDTextByte(b byte) bool {
 	switch {
